@@ -85,10 +85,26 @@ def array1d : Op := fun j => do
   | "native_for_slim" => pure (natsToJson (Impl.nativeForSlim1d mask))
   | _ => throw "bad dir"
 
+/-- `Array1D(values, mask, store_native)` then `.slim` and `.native` -/
+def array1dConvert : Op := fun j => do
+  let bits ← getStr (← field j "bits")
+  let mask := bits.toList.map (· == '1')
+  let vals ← getRats (← field j "values")
+  let sn ← getBool (← field j "store_native")
+  match Impl.convertArray1d mask vals sn (0 : Rat) with
+  | none => throw "shape_mismatch"
+  | some st =>
+    match Impl.viewSlim1d mask st 0, Impl.viewNative1d mask st 0 with
+    | some sl, some na =>
+      pure (obj [("stored", Json.str (match st with | .slim _ => "slim" | .native _ => "native")),
+                 ("slim", ratsToJson sl.values), ("native", ratsToJson na.values)])
+    | _, _ => throw "view_failed"
+
 def ops : List (String × Op) :=
   [("c01.native_for_slim", nativeForSlim), ("c01.mask_slim_indexes", maskSlimIndexes),
    ("c01.total_pixels", totalPixels), ("c01.array_convert", arrayConvert),
-   ("c01.grid_convert", gridConvert), ("c01.array1d", array1d)]
+   ("c01.grid_convert", gridConvert), ("c01.array1d", array1d),
+   ("c01.array1d_convert", array1dConvert)]
 
 end Driver.C01
 
